@@ -41,8 +41,8 @@ pub fn programs11() -> Vec<Prog> {
         }
         p
     };
-    const NAMES: [&str; 11] = ["loop-nobreak", "break@0", "break@1", "break@2-labelled", "break@3", "break@4", "break@5-halt", "break@end", "break-doubled@2", "breaks@0+2+4", "break@2-orig-x4000"];
-    let sets: [(&[usize], Option<u16>); 11] = [(&[], None), (&[0], None), (&[1], None), (&[2], None), (&[3], None), (&[4], None), (&[5], None), (&[6], None), (&[2, 2], None), (&[0, 2, 4], None), (&[2], Some(0x4000))];
+    const NAMES: [&str; 13] = ["loop-nobreak", "break@0", "break@1", "break@2-labelled", "break@3", "break@4", "break@5-halt", "break@end", "break-doubled@2", "breaks@0+2+4", "break@2-orig-x4000", "breaks@1+3+5-orig-x0002", "break@4-orig-x0004"];
+    let sets: [(&[usize], Option<u16>); 13] = [(&[], None), (&[0], None), (&[1], None), (&[2], None), (&[3], None), (&[4], None), (&[5], None), (&[6], None), (&[2, 2], None), (&[0, 2, 4], None), (&[2], Some(0x4000)), (&[1, 3, 5], Some(0x0002)), (&[4], Some(0x0004))];
     for (i, (b, o)) in sets.iter().enumerate() {
         v.push(Prog::new(NAMES[i], base(b, *o), true));
     }
@@ -178,7 +178,7 @@ pub fn run(ctx: &Ctx) -> i32 {
         ctx,
         acc,
         Level { category: "model_checking", bfs: Some((stats.states, stats.transitions, stats.transitions, stats.max_depth)) },
-        "explicit-state BFS over command histories (continue, step, step into {1,3}, step out, reset, goto first, break add/remove in absolute, label+offset and ^offset spelling) on 16 programs: a loop revisiting its body three times with `.break` before the first statement, between any two, on the HALT, after the last statement, doubled, on a labelled statement, with a label of its own, three at once, at a non-default origin; a self-branch under a breakpoint; a breakpoint directly before HALT; a subroutine returning onto a breakpoint. Every transition: product of real debugger and reference (paused machine, instruction count, breakpoint set, sortedness), and `break list` output compared with the set after every breakpoint command and breakpoint pause. non-trivial = agreeing transitions",
+        "explicit-state BFS over command histories (continue, step, step into {1,3}, step out, reset, goto first, break add/remove in absolute, label+offset and ^offset spelling) on 18 programs: a loop revisiting its body three times with `.break` before the first statement, between any two, on the HALT, after the last statement, doubled, on a labelled statement, with a label of its own, three at once, at origin x4000 and at origins so low (x0002, x0004) that statement indices exceed the origin; a self-branch under a breakpoint; a breakpoint directly before HALT; a subroutine returning onto a breakpoint. Every transition: product of real debugger and reference (paused machine, instruction count, breakpoint set, sortedness), and `break list` output compared with the set after every breakpoint command and breakpoint pause. non-trivial = agreeing transitions",
         !stats.capped,
         &["paused-at-breakpoint", "paused-at-halt", "loop-iteration-repeated", "break-directive-observed", "command-refused"],
         &["reference debugger = DESIGN.md appendix A: the instruction at the resume address executes once, then every arrival at a breakpoint pauses"],
